@@ -183,7 +183,7 @@ theorem goRaw_loadAfterTxn {c : LoopCfg} {b : Bucket} {s : St} {i : In} {t : Nat
 
 theorem goRaw_beforeInfo {c : LoopCfg} {b : Bucket} {s : St} {i : In} (h : s.pc = .beforeInfo) :
     goRaw c b s i =
-      if s.env.lastTxn > s.lastSynced then
+      if s.env.lastTxn > s.lastSynced ∨ s.forceArmed = true then
         if s.waiting.contains c.own then (afterSend c s, b)
         else
           if s.hasDataAtStart ∨ s.env.lastTxn > 0 then
@@ -192,6 +192,20 @@ theorem goRaw_beforeInfo {c : LoopCfg} {b : Bucket} {s : St} {i : In} (h : s.pc 
       else (afterSend c s, b) := by
   unfold goRaw
   split <;> simp_all
+
+/-- the change check when no snapshot is overdue: `lastTxn > lastSynced` alone decides -/
+theorem goRaw_beforeInfo_unarmed {c : LoopCfg} {b : Bucket} {s : St} {i : In} (h : s.pc = .beforeInfo)
+    (hf : s.forceArmed = false) :
+    goRaw c b s i =
+      if s.env.lastTxn > s.lastSynced then
+        if s.waiting.contains c.own then (afterSend c s, b)
+        else
+          if s.hasDataAtStart ∨ s.env.lastTxn > 0 then
+            ({ s with lastSynced := s.env.lastTxn, pc := .beforeSend }, b)
+          else (afterSend c { s with lastSynced := s.env.lastTxn }, b)
+      else (afterSend c s, b) := by
+  rw [goRaw_beforeInfo h]
+  simp only [hf, Bool.false_eq_true, or_false]
 
 theorem goRaw_beforeSend {c : LoopCfg} {b : Bucket} {s : St} {i : In} (h : s.pc = .beforeSend) :
     goRaw c b s i = (beginSend c s .loop i.now, b) := by
@@ -209,12 +223,25 @@ theorem goRaw_sendAfterTxn {c : LoopCfg} {b : Bucket} {s : St} {i : In} {who : C
   unfold goRaw
   split <;> simp_all
 
+/-- the bookkeeping `goRaw` does at `sendStored`: the cleaner is told what the stored snapshot
+    incorporates, and (the store succeeded) no snapshot is overdue any more -/
+def stored (s : St) : St :=
+  { s with committed := s.lastBy.foldl (fun acc p => setAssoc acc p.1 p.2) s.committed,
+           forceArmed := false }
+
+theorem stored_facts (s : St) :
+    (stored s).env = s.env ∧ (stored s).pc = s.pc ∧ (stored s).lastSynced = s.lastSynced ∧
+    (stored s).waiting = s.waiting ∧ (stored s).seen = s.seen ∧
+    (stored s).hasDataAtStart = s.hasDataAtStart ∧ (stored s).lastBy = s.lastBy ∧
+    (stored s).bgListed = s.bgListed ∧ (stored s).forceArmed = false ∧
+    (stored s).committed = s.lastBy.foldl (fun acc p => setAssoc acc p.1 p.2) s.committed :=
+  ⟨rfl, rfl, rfl, rfl, rfl, rfl, rfl, rfl, rfl, rfl⟩
+
 theorem goRaw_sendStored {c : LoopCfg} {b : Bucket} {s : St} {i : In} {who : Caller} {t : Nat}
     (h : s.pc = .sendStored who t) :
     goRaw c b s i =
-      (sendReturned c { s with committed := s.lastBy.foldl (fun acc p => setAssoc acc p.1 p.2) s.committed }
-        who t, b) := by
-  unfold goRaw
+      (sendReturned c (stored s) who t, b) := by
+  unfold goRaw stored
   split <;> simp_all
 
 theorem goRaw_sleep {c : LoopCfg} {b : Bucket} {s : St} {i : In} (h : s.pc = .sleep) :
@@ -242,6 +269,40 @@ theorem sendReturned_facts (c : LoopCfg) (s : St) (who : Caller) (t : Nat) :
     obtain ⟨h1, h2, h3, h4, h5, _⟩ := afterSend_facts c { s with lastSynced := t }
     refine ⟨h1, h2, h3, h4, h5, ?_⟩
     rw [afterSend_pc]
+
+/-! ## the force flag (`storage_force_snapshot_interval`) through the pieces -/
+
+theorem appCommit_force (s : St) (ops : List AppOp) : (appCommit s ops).forceArmed = s.forceArmed := by
+  unfold appCommit
+  cases appTxn s.env ops <;> rfl
+
+theorem loadDone_force (s : St) (t : Nat) (lc : Bool) (inst : InstId) (ts : Nat) :
+    (loadDone s t lc inst ts).forceArmed = s.forceArmed := by
+  unfold loadDone
+  cases lc <;> rfl
+
+theorem pollOut_force {c : LoopCfg} {b : Bucket} {s : St} {i : In} {n : Nat} {s' : St}
+    (h : PollOut c b s i n s') : s'.forceArmed = s.forceArmed := by
+  cases h <;> rfl
+
+theorem sendOut_force {c : LoopCfg} {s : St} {who : Caller} {now : Nat} {s' : St}
+    (h : SendOut c s who now s') : s'.forceArmed = s.forceArmed := by
+  cases h <;> rfl
+
+theorem afterSend_force (c : LoopCfg) (s : St) : (afterSend c s).forceArmed = s.forceArmed := by
+  unfold afterSend
+  split <;> rfl
+
+theorem sendReturned_force (c : LoopCfg) (s : St) (who : Caller) (t : Nat) :
+    (sendReturned c s who t).forceArmed = s.forceArmed := by
+  unfold sendReturned
+  cases who
+  · rfl
+  · exact afterSend_force c _
+
+theorem relist_force (s : St) (b : Bucket) : (relist s b).forceArmed = s.forceArmed := by
+  unfold relist
+  split <;> rfl
 
 /-- the start-up part of `goRaw` (pc = boot), outcome by outcome -/
 inductive BootOut (c : LoopCfg) (b : Bucket) (s : St) (i : In) : St → Prop where
@@ -304,5 +365,79 @@ theorem goRaw_boot {c : LoopCfg} {b : Bucket} {s : St} {i : In} (h : s.pc = .boo
         { s with hasDataAtStart := decide (s.env.lastTxn > 0), lastSynced := 0,
                  seen := instancesOf b, waiting := instancesOf b, env := env }
         rfl rfl rfl henv.1 henv.2.1 henv.2.2 hs
+
+/-! ## `go` never arms the force flag -/
+
+theorem beginSend_force (c : LoopCfg) (s : St) (who : Caller) (now : Nat) :
+    (beginSend c s who now).forceArmed = s.forceArmed :=
+  sendOut_force (beginSend_out c s who now)
+
+theorem poll_force (c : LoopCfg) (b : Bucket) (s : St) (i : In) (n : Nat) :
+    (poll c b s i n).forceArmed = s.forceArmed :=
+  pollOut_force (poll_out c b s i n)
+
+/-- **a segment leaves the force flag alone, except that the segment after a successful store
+    (`sendStored`) clears it** -/
+theorem goRaw_force (c : LoopCfg) (b : Bucket) (s : St) (i : In) :
+    (goRaw c b s i).1.forceArmed =
+      match s.pc with
+      | .sendStored .. => false
+      | _ => s.forceArmed := by
+  cases hpc : s.pc with
+  | boot =>
+    unfold goRaw; rw [hpc]
+    simp only
+    split
+    · rfl
+    · split
+      · exact beginSend_force c _ .initial i.now
+      · rfl
+  | top => rw [goRaw_top hpc]; exact poll_force c b s i 0
+  | loadAfterTxn t lc inst ts n =>
+    rw [goRaw_loadAfterTxn hpc]
+    split
+    · exact loadDone_force s t lc inst ts
+    · exact (poll_force c b _ i n).trans (loadDone_force s t lc inst ts)
+  | beforeInfo =>
+    rw [goRaw_beforeInfo hpc]
+    split
+    · split
+      · exact afterSend_force c s
+      · split
+        · rfl
+        · exact afterSend_force c _
+    · exact afterSend_force c s
+  | beforeSend => rw [goRaw_beforeSend hpc]; exact beginSend_force c s .loop i.now
+  | sendAfterTxn who t ts snap =>
+    rw [goRaw_sendAfterTxn hpc]
+    split
+    · exact sendReturned_force c s who _
+    · split <;> rfl
+  | sendStored who t => rw [goRaw_sendStored hpc]; exact sendReturned_force c _ who t
+  | sleep => rw [goRaw_sleep hpc]
+  | exited e => rw [goRaw_exited hpc]
+
+theorem go_force (c : LoopCfg) (b : Bucket) (s : St) (i : In) :
+    (go c b s i).1.forceArmed =
+      match s.pc with
+      | .sendStored .. => false
+      | _ => s.forceArmed := by
+  rw [go_eq]
+  exact (relist_force _ _).trans (goRaw_force c b s i)
+
+/-- `go` never arms: an unarmed state stays unarmed -/
+theorem go_unarmed {c : LoopCfg} {b : Bucket} {s : St} {i : In} (h : s.forceArmed = false) :
+    (go c b s i).1.forceArmed = false := by
+  rw [go_force]
+  split
+  · rfl
+  · exact h
+
+theorem goRaw_unarmed {c : LoopCfg} {b : Bucket} {s : St} {i : In} (h : s.forceArmed = false) :
+    (goRaw c b s i).1.forceArmed = false := by
+  rw [goRaw_force]
+  split
+  · rfl
+  · exact h
 
 end Ls.Loop
